@@ -121,6 +121,12 @@ def world_job(job):
                     sc["preempt_p"] = r.choice([0.0, 0.0, 0.01, 0.03, 0.1])
                 if sc.get("client") == "rest" and "http_error_body" not in sc:
                     sc["http_error_body"] = R.stream(seed, "http-error-body", i).choice([None, None, "html", "empty"])
+                # fault (version skew): the server is NEWER than the installed message definitions - every JSON reply object
+                # carries a field the client has never heard of (property modules opt in: the REST operations client of
+                # api-core, which C08's polls go through, rejects such replies by design of api-core)
+                if sc.get("client") == "rest" and getattr(mod, "UNKNOWN_REPLY_FIELDS", False) and "unknown_reply_field" not in sc \
+                        and R.stream(seed, "unknown-reply-field", i).random() < 0.15:
+                    sc["unknown_reply_field"] = True
         res["build_s"] = time.perf_counter() - t0
         seen_rules = set()
         for i, sc in enumerate(scenarios):
@@ -142,6 +148,10 @@ def world_job(job):
             res["interleavings"].add(R.digest(sh["interleaving"])[:16])
             for k, v in sh.get("faults", {}).items():
                 res["faults"][k] = res["faults"].get(k, 0) + v
+            if sc.get("unknown_reply_field"):
+                nu = sum(1 for e in hist if e["k"] == "unknown_field_injected")
+                if nu:
+                    res["faults"]["reply_with_field_unknown_to_client"] = res["faults"].get("reply_with_field_unknown_to_client", 0) + nu
             if sc.get("http_error_body"):
                 nb = sum(1 for e in hist if e["k"] == "attempt_end" and e.get("status") not in ("OK", None) and any(
                     x["k"] == "attempt" and x.get("tr") == "rest" and x.get("n") == e.get("n") and x.get("op") == e.get("op") for x in hist))
